@@ -68,7 +68,12 @@ class CoverpointCrossModel(CoverItemBase):
         
     def get_coverage(self):
         if not self.coverage_calc_valid:
-            self.coverage = (len(self.hit_l)-len(self.unhit_s))/len(self.hit_l) * 100.0
+            # A bin is covered once it has been hit 'at_least' times
+            n_covered = 0
+            for h in self.hit_l:
+                if h >= self.options.at_least:
+                    n_covered += 1
+            self.coverage = n_covered/len(self.hit_l) * 100.0
             self.coverage_calc_valid = True
             
         return self.coverage
@@ -179,8 +184,10 @@ class CoverpointCrossModel(CoverItemBase):
             self.hit_l[bin_idx] += 1
             if bin_idx in self.unhit_s:
                 # New bin hit
-                self.parent.coverage_ev(self, bin_idx)
                 self.unhit_s.remove(bin_idx)
+            if self.hit_l[bin_idx] <= max(self.options.at_least, 1):
+                # Coverage changes until the bin reaches its goal
+                self.parent.coverage_ev(self, bin_idx)
                 self.coverage_calc_valid = False
 
     def dump(self, ind=""):
